@@ -339,9 +339,10 @@ where
                 crate::verif::count(&crate::verif::INVALIDATED);
                 return affected_error(input);
             }
-            // How a node ends is decided by the first token behind it, that is not a comment,
+            // How a node ends is decided by the tokens behind it, that are not comments,
             // because all parsers skip comments.
-            let look_ahead = 1 + input.comments_at(this_range.len());
+            // The parsers in `look_ahead` look at up to two of them.
+            let look_ahead = input.look_ahead_len(this_range.len(), 2);
             let affected_range = this_range.start..(this_range.end + look_ahead);
             // A node can only be reused as it is,
             // if its position relative to the enclosing reference did not change.
